@@ -283,6 +283,28 @@ PROPS = {
         "assumptions": ["member names are distinct within an object", "JWT dates are whole seconds in UTC (NumericDate)",
                         "an X25519 did:key is not resolvable by vdr/key (modelled as such)"],
     },
+    "C07": {
+        "lean_files": ["AriesVerif/C07/Model.lean", "AriesVerif/C07/Strict.lean", "AriesVerif/C07/Props.lean",
+                       "AriesVerif/C07/Drv.lean"],
+        "lake_targets": ["AriesVerif"],
+        "classify": lambda inp, out: ["suite:" + inp.split("|")[0] + "/" + inp.split("|")[1], "mut:" + ":".join(inp.split("|")[3].split(":")[:2] if inp.split("|")[3].startswith(("add", "opt")) else inp.split("|")[3].split(":")[:1])] +
+                                     [w for w in out.split("|")[0].split(" ") if w.startswith(("res=", "strict=", "applied="))],
+        "nontrivial": lambda inp, out: "applied=1" in out and "base=acc" in out,
+        "thorough_seeds": 2,
+        "case_timeout": 180,
+        "rule": "60 generated credentials (one or two subjects, nested nodes with and without id, set-valued terms, one- and "
+                "two-element arrays of nodes, typed literals, @id-typed terms, issuer as string or object, custom context "
+                "served in memory) x five suites (Ed25519Signature2018/2020, JsonWebSignature2020, EcdsaSecp256k1Signature2019, "
+                "BbsBlsSignature2020) x proofValue / detached JWS; the signed JSON is altered at a leaf chosen by index "
+                "(changed, deleted), by a defined or an undefined member added at five depths (top, subject, nested object, "
+                "element of a one- and of a two-element array), by reordering / duplicating a set, by changing each of the five "
+                "proof options or the signature, by deleting the proof; verified with default and with strict validation; "
+                "non-trivial = the alteration found a place in the document",
+        "trusted_base": ["JSON-LD expansion and URDNA2015 (json-gold) are replaced by the `claims` reading of the generated "
+                         "fragment (partial)", "signature primitives ideal", "compaction law: undefined members are dropped"],
+        "assumptions": ["no @list container, no language maps, no @graph in the generated fragment",
+                        "presentations and JWT-VC/VP are covered by C08 (JWS layer) and not driven here"],
+    },
     "C14": {
         "lean_files": ["AriesVerif/C14/Model.lean", "AriesVerif/C14/Props.lean", "AriesVerif/C14/Drv.lean"],
         "lake_targets": ["AriesVerif"],
